@@ -49,7 +49,9 @@ pub struct TabCase {
     pub cursor: usize,
     pub cap: usize,
     pub prompt: usize,
-    /// "tl" set only: where the hand-written Autocomplete calls `mark_partial()` (session::TL_PARTIAL)
+    /// "tl" set only: where the hand-written Autocomplete calls `mark_partial()` (session::TL_PARTIAL): 0 never, 1-3 always
+    /// (before the first merge, after the first, after the last), 4-5 the implementation merges the common continuation of
+    /// its matching names itself, once, and marks it partial exactly when two or more match (4 before the merge, 5 after)
     pub partial: u8,
 }
 
@@ -122,7 +124,9 @@ pub fn judge_tab(c: &TabCase, names_for_model: &[String], obs: &vmodel::genrun::
     }
     let mut model_names: Vec<String> = names_for_model.to_vec();
     model_names.push("help".to_string());
-    let exp = ref_complete_p(&model_names, &c.line, c.cursor, c.cap, c.partial != 0);
+    // modes 1-3 mark the completion partial whatever matches (the blank is then left open); modes 4-5 mark it exactly when
+    // two or more names match, which is what the model says anyway
+    let exp = ref_complete_p(&model_names, &c.line, c.cursor, c.cap, matches!(c.partial, 1..=3));
     let mut zone_open = false;
     match &exp {
         Completion::Unchanged => {
@@ -222,24 +226,27 @@ fn line_for(names: Vec<String>) -> impl Strategy<Value = (Vec<String>, String, u
         0usize..3,
         any::<u16>(),
         any::<u16>(),
-        prop_oneof![6 => Just(""), 1 => Just("x"), 1 => Just("é")],
+        // (blanks other than U+0020 are ordinary characters: in front of the word, behind it or on their own they are part
+        // of a word that matches nothing)
+        prop_oneof![12 => Just(""), 2 => Just("x"), 2 => Just("é"), 1 => Just("\u{a0}"), 1 => Just("\u{3000}"), 1 => Just("\u{2003}"), 1 => Just("\u{85}")],
         0usize..3,
-        prop_oneof![8 => Just(""), 1 => Just("a"), 1 => Just("arg ")],
+        prop_oneof![16 => Just(""), 2 => Just("a"), 2 => Just("arg "), 1 => Just("\u{3000}"), 1 => Just("\u{a0} ")],
         any::<u16>(),
         0usize..=10,
+        prop_oneof![14 => Just(""), 1 => Just("\u{a0}"), 1 => Just("\u{2003}")],
     )
-        .prop_map(move |(lead, which, cut, junk, trail, second, cur, extra)| {
+        .prop_map(move |(lead, which, cut, junk, trail, second, cur, extra, front)| {
             let name = pick(&pool, which);
             let chars: Vec<char> = name.chars().collect();
             let k = (cut as usize * (chars.len() + 1)) >> 16;
             let word: String = chars[..k.min(chars.len())].iter().collect();
-            let line = format!("{}{}{}{}{}", " ".repeat(lead), word, junk, " ".repeat(trail), second);
+            let line = format!("{}{}{}{}{}{}", " ".repeat(lead), front, word, junk, " ".repeat(trail), second);
             (names.clone(), line, cur, extra)
         })
 }
 
 fn case_strategy() -> impl Strategy<Value = TabCase> {
-    (name_strategy().prop_flat_map(line_for), 0usize..5, prop_oneof![5 => Just(0u8), 1 => Just(1u8), 1 => Just(2u8), 1 => Just(3u8)]).prop_map(|((names, line, cur, extra), prompt, partial)| {
+    (name_strategy().prop_flat_map(line_for), 0usize..5, prop_oneof![5 => Just(0u8), 1 => Just(1u8), 1 => Just(2u8), 1 => Just(3u8), 2 => Just(4u8), 2 => Just(5u8)]).prop_map(|((names, line, cur, extra), prompt, partial)| {
         let n = line.chars().count();
         TabCase {
             partial,
